@@ -17,19 +17,19 @@ ASSUMPTIONS = ['the reviewed table was frozen from a tree whose checks were read
 EXCLUDE = re.compile(r'^(<value::StructuralValue as .*|<value::Destructor.*|value::destruct::.*|array::(Partition|Combiner|Unfolder).*|<array::Partition.*|<&?value::(Structural)?Value as miniscript::iter::TreeLike>::as_node|<value::StructuralValue as miniscript.*|witness::WitnessValues::is_consistent|debug::.*|<.* as std::fmt::Display>::fmt.*|types::TypeInner::<A>::display|error::Span::to_slice|<.* as parse::ParseFromStr>::parse_from_str.*|witness::<impl parse::ParseFromStr for types::ResolvedType>::parse_from_str|value::Value::parse_from_str|TemplateProgram::(new|instantiate)|CompiledProgram::new)$')
 
 
-def table_rule(ctx, rid, select, what, fields=guards.ALL_FIELDS):
+def table_rule(ctx, rid, select, what, fields=guards.ALL_FIELDS, config=None):
     ctx.rule(rid, 'decision tables (conditions, passed `?` checks, outcome) of %s equal the reviewed table' % what)
-    fx = ctx.facts()
-    table = guards.load_table()
-    cur = set(guards.guard_functions(fx))
+    fx = ctx.facts(config) if config else ctx.facts()
+    table = guards.load_table(config)
+    cur = set(guards.guard_functions(fx)) if not config else set()
     paths = sorted(p for p in (set(table) | cur) if select(p))
-    n = guards.compare(ctx, rid, paths, table, what, fields)
+    n = guards.compare(ctx, rid, paths, table, what, fields, config=config)
     return n, len(paths)
 
 
-def group_rule(ctx, rid, regex, what, floor):
+def group_rule(ctx, rid, regex, what, floor, config=None):
     r = re.compile(regex)
-    n, f = table_rule(ctx, rid, lambda p: bool(r.match(p)), what)
+    n, f = table_rule(ctx, rid, lambda p: bool(r.match(p)), what, config=config)
     ctx.floor(rid, 'functions in table group (%s)' % what, f, floor)
     return n
 
